@@ -1445,6 +1445,9 @@ def _abort_flow(
         if flow_state.activated == 0:
             # Abort all activated child flows
             for child_flow_uid in list(flow_state.child_flow_uids):
+                if child_flow_uid not in state.flow_states:
+                    # Finished child flows can have been removed by the state clean-up
+                    continue
                 child_flow = state.flow_states[child_flow_uid]
                 if child_flow.flow_id == flow_state.flow_id:
                     _abort_flow(state, child_flow, matching_scores, True)
@@ -1540,6 +1543,9 @@ def _finish_flow(
         if flow_state.activated == 0:
             # Abort all activated child flows
             for child_flow_uid in list(flow_state.child_flow_uids):
+                if child_flow_uid not in state.flow_states:
+                    # Finished child flows can have been removed by the state clean-up
+                    continue
                 child_flow = state.flow_states[child_flow_uid]
                 if child_flow.flow_id == flow_state.flow_id:
                     _abort_flow(state, child_flow, matching_scores, True)
